@@ -2,6 +2,7 @@
 # developer helper: run every registered quick (or $1) check sequentially, print rc and wall time
 cd "$(dirname "$0")"
 TIER=${1:-quick}
+mkdir -p work
 for id in $(python3 -c "import json;print(' '.join(c['property_id'] for c in json.load(open('MANIFEST.json'))['checks']))"); do
   s=$(date +%s)
   ./check $id --tier $TIER > work/$id.$TIER.out 2>&1
